@@ -2,7 +2,7 @@
 # check run (driver/rust2coq.py + driver/r2c_table.py); hooked into translate.regenerate_all() through fragments().
 # Proofs/SrcEq<Module>.v proves every regenerated definition equal to the hand-written model function, so the theorems
 # about the models are re-checked against what the code says now.
-import os, sys
+import os, sys, re
 import translate
 from translate import TieBroken, write_if_changed, _src
 from common import COQDIR
@@ -55,6 +55,24 @@ Fixpoint while_ret {S R} (fuel : nat) (body : S -> res (wout S R)) (s : S) : res
       end
   end.
 
+(* for x in v.drain(..) / for x in v: the elements in order *)
+Fixpoint for_in {S X} (l : list X) (body : X -> S -> res S) (s : S) : res S :=
+  match l with
+  | [] => Ok s
+  | x :: t => let* s' := body x s in for_in t body s'
+  end.
+
+(* usize `/` and `%` by a divisor that may be 0 *)
+Definition udiv (a b : nat) : res nat := if b =? 0 then Panic DivZero else Ok (a / b).
+Definition umod (a b : nat) : res nat := if b =? 0 then Panic DivZero else Ok (a mod b).
+
+(* handle.join().unwrap() of a scoped worker (value model: the worker is its computation): a worker that panicked makes
+   join() return Err, which unwrap() turns into a panic of the joining thread *)
+Definition join_unwrap {X} (h : res X) : res X := match h with Ok x => Ok x | Panic _ => Panic Unwrap end.
+
+(* the value of Vec::pop(): the last element, if any *)
+Definition last_opt {X} (l : list X) : option X := match rev l with [] => None | x :: _ => Some x end.
+
 (* Option::unwrap / Result::unwrap *)
 Definition unwrap_opt {X} (o : option X) : res X :=
   match o with Some x => Ok x | None => Panic Unwrap end.
@@ -82,6 +100,13 @@ def render_module(mod, ent, cache):
             errors[spec["name"]] = str(e)
             L.append("(* TIE BROKEN -- s_%s is not generated: %s *)\n" % (spec["name"], str(e).replace("*)", "* )")))
             continue
+        body_text = rust2coq.pp(term, 2)
+        # literals the model takes as named parameters: a function that uses ANY of them takes ALL of them, in the fixed order of
+        # the table -- so that a source that uses 0.25 where the model expects 0.5 changes the regenerated function (with Section
+        # variables the two would be indistinguishable after the section is closed)
+        lit_params = ent.get("lit_params", [])
+        if lit_params and any(re.search(r"(?<![A-Za-z0-9_])%s(?![A-Za-z0-9_'])" % re.escape(n), body_text) for n, _ in lit_params):
+            gparams = list(lit_params) + list(gparams)
         ps = " ".join("(%s : %s)" % (n, t) for n, t in gparams)
         L.append("(* %s : impl %s :: fn %s *)" % (rel, " ".join(header.split()), spec["fn"]))
         gty = rust2coq.gtype(rty)
